@@ -177,6 +177,39 @@ func newContainer(kind int, initial []ap.Item, spare int, total uint) *container
 	return c
 }
 
+// withPaging fills the paging properties of a collection under test: first / current / last (and,
+// on a page, partOf / next / prev) as ids or as embedded pages that hold members of their own –
+// among them items of the pool. What a page of the collection holds is not what the collection
+// holds: the set under test is the collection's own item list.
+func (c *container) withPaging(t *core.Tape, pool []poolItem) string {
+	page := func() ap.Item {
+		if t.Bool(1, 3) {
+			return ap.IRI("https://example.com/col?page=" + fmt.Sprint(1+t.Draw(3)))
+		}
+		items := ap.ItemCollection{}
+		for i, n := 0, 1+t.Draw(3); i < n; i++ {
+			items = append(items, pool[t.Draw(len(pool))].it)
+		}
+		if t.Bool(1, 2) {
+			return &ap.OrderedCollectionPage{ID: "https://example.com/col?page=1", Type: ap.OrderedCollectionPageType, OrderedItems: items, TotalItems: uint(len(items))}
+		}
+		return &ap.CollectionPage{ID: "https://example.com/col?page=1", Type: ap.CollectionPageType, Items: items, TotalItems: uint(len(items))}
+	}
+	switch p := c.item.(type) {
+	case *ap.Collection:
+		p.First, p.Current, p.Last = page(), page(), page()
+	case *ap.OrderedCollection:
+		p.First, p.Current, p.Last = page(), page(), page()
+	case *ap.CollectionPage:
+		p.First, p.Current, p.Last, p.PartOf, p.Next, p.Prev = page(), page(), page(), page(), page(), page()
+	case *ap.OrderedCollectionPage:
+		p.First, p.Current, p.Last, p.PartOf, p.Next, p.Prev = page(), page(), page(), page(), page(), page()
+	default:
+		return ""
+	}
+	return "paging properties set"
+}
+
 // viaIntf runs fn on the container's CollectionInterface as OnCollectionIntf
 // presents it.
 func (c *container) viaIntf(fn func(ci ap.CollectionInterface)) error {
@@ -547,6 +580,12 @@ func run(c *core.Ctx) {
 			c.Logf("the list is the \"to\" list of a decoded object with bystander lists %v", dc.bystanderOf)
 		}
 	}
+	if kind >= 2 && t.Bool(1, 4) {
+		if d := ct.withPaging(t, pool); d != "" {
+			c.Probe("paging_properties_set")
+			c.Logf("%s", d)
+		}
+	}
 	c.Logf("%s init=%s spare=%d totalItems=%d access=%d pool=%s", kindNames[kind], shorts(m.ids), spare, total, intfMode, poolDesc(pool))
 	verify(c, ct, m, pool, false, "init")
 	maxOps := 14
@@ -574,6 +613,34 @@ func run(c *core.Ctx) {
 		}
 		via := intfMode == 1 || (intfMode == 2 && t.Bool(1, 2))
 		op := t.Draw(8)
+		if t.Bool(1, 48) {
+			// Append of a whole batch (16..40 arguments, repeats among them), from a buffer the caller
+			// owns and reuses afterwards: the collection keeps the items, not the caller's buffer
+			k := 16 + t.Draw(25)
+			buf := make([]ap.Item, k, k+t.Draw(3))
+			ids := make([]string, k)
+			for j := range buf {
+				p := pool[t.Draw(nPool)]
+				buf[j], ids[j] = p.it, p.id
+			}
+			step := fmt.Sprintf("Append(batch of %d: %s)", k, shorts(ids))
+			c.Logf("%s via=%v", step, via)
+			c.Probe("append_batch")
+			if via {
+				_ = ct.viaIntf(func(ci ap.CollectionInterface) { _ = ci.Append(buf...) })
+			} else {
+				_ = ct.app(buf...)
+			}
+			for _, id := range ids {
+				m.add(id)
+			}
+			for j := range buf[:cap(buf)] {
+				buf[:cap(buf)][j] = ap.IRI("https://caller.example/REUSED-BUFFER")
+			}
+			changes++
+			verify(c, ct, m, vpool, via, "Append(batch)")
+			continue
+		}
 		switch {
 		case op <= 2: // Append(x)
 			p := pool[t.Draw(nPool)]
